@@ -218,6 +218,20 @@ fn validator_catalogue(em: &mut Emitter) {
     }
 }
 
+fn hand_roundtrip_only<T>(em: &mut Emitter, tag: &str, kind: &str, x: &T, to: impl Fn(&T) -> Vec<u8>, from: impl Fn(&[u8]) -> Option<T>) {
+    em.oracle_case(&format!("{} hand wide {}", kind, em.oracle_evals));
+    let a = to(x);
+    match call_opt(|| from(&a)) {
+        Out::Ok(y) => {
+            if to(&y) != a {
+                em.violation(&format!("{}:hand-codec-differs:{}", tag, kind), format!("{}: from_bytes(to_bytes(x)) re-encodes differently ({} bytes)", kind, a.len()), json!({"kind": kind, "len": a.len()}));
+            }
+        }
+        Out::Err => em.violation(&format!("{}:hand-codec-roundtrip:{}", tag, kind), format!("{}: from_bytes rejects the output of to_bytes ({} bytes)", kind, a.len()), json!({"kind": kind, "len": a.len()})),
+        Out::Panic(m) => em.violation(&format!("{}:hand-codec-panic:{}", tag, kind), format!("{}: from_bytes panicked on the output of to_bytes: {}", kind, m), json!({"kind": kind, "len": a.len()})),
+    }
+}
+
 fn schemas(rng: &mut Rng) -> Vec<(bool, CredentialSchema)> {
     let mut out = vec![];
     for sparse in [false, true] {
@@ -417,6 +431,17 @@ fn suite_objects<S: ShortGroupSignatureScheme>(em: &mut Emitter, rng: &mut Rng, 
 
 pub fn hand_codecs(em: &mut Emitter, rng: &mut Rng, tag: &str) {
     use std::num::NonZeroUsize;
+    // keys of the widest capacities the library hands out (count fields beyond one byte)
+    for n in [126usize, 127, 128] {
+        if let Ok((ppk, psk)) = ps::PsScheme::new_keys(NonZeroUsize::new(n).unwrap(), rng.chacha()) {
+            hand_roundtrip_only(em, tag, "ps::PublicKey", &ppk, |x| x.to_bytes(), |b| ps::PublicKey::from_bytes(b));
+            hand_roundtrip_only(em, tag, "ps::SecretKey", &psk, |x| x.to_bytes(), |b| ps::SecretKey::from_bytes(b));
+        }
+        if let Ok((bpk, bsk)) = bbs::BbsScheme::new_keys(NonZeroUsize::new(n).unwrap(), rng.chacha()) {
+            hand_roundtrip_only(em, tag, "bbs::PublicKey", &bpk, |x| x.to_bytes(), |b| bbs::PublicKey::from_bytes(b));
+            hand_roundtrip_only(em, tag, "bbs::SecretKey", &bsk, |x| x.to_bytes(), |b| bbs::SecretKey::from_bytes(b));
+        }
+    }
     for n in 1..=em.n(4, 8) {
         // PS
         let (ppk, psk) = ps::PsScheme::new_keys(NonZeroUsize::new(n).unwrap(), rng.chacha()).unwrap();
